@@ -45,6 +45,13 @@ TODAY = D(2024, 6, 15)
 EXPIRIES = [D(2000, 1, 1), D(3000, 1, 1), TODAY, TODAY - datetime.timedelta(days=1), TODAY + datetime.timedelta(days=1), None,
             TODAY + datetime.timedelta(hours=9), TODAY - datetime.timedelta(minutes=1),                 # times of day around "today" = midnight
             datetime.date(2000, 1, 1), datetime.date(3000, 1, 1), TODAY.date()]                          # expiry DATES given as datetime.date
+# "in any other spelling dt() accepts" (fix 7ea4860; review t2 V3: the model recomputed on these, the code keeps): date strings and
+# yyyymmdd numbers, with the instant each denotes (the reference of the law; independent of pyg_base.dt).  Only spellings of an
+# ABSOLUTE date: a small number is an offset from the wall clock (dt(-1) = yesterday by the REAL clock, not the injected today).
+SPELLED = {'2000-01-01': D(2000, 1, 1), '20000101': D(2000, 1, 1), 20000101: D(2000, 1, 1), '3000-01-01': D(3000, 1, 1), 30000101: D(3000, 1, 1),
+           '2024-06-15': TODAY, '14/06/2024': TODAY - datetime.timedelta(days=1), 20240614: TODAY - datetime.timedelta(days=1),
+           '2024-06-15 09:00': TODAY + datetime.timedelta(hours=9), '1 Jan 2000': D(2000, 1, 1)}
+EXPIRIES = EXPIRIES + list(SPELLED)
 KUNIV = [1, 2, 3, 4, 'x', 'y', None, 2.0, 5.0, D(2020, 1, 1)]
 JUNIV = ['u', 'v', 1]
 VALS = [0, 1, 2, 7, 'p', 'q', None, 0.5, 2.5]
@@ -91,8 +98,14 @@ def make_table(rng, on, keys, valname, vals, partial=False):
     if partial and len(on) == 2:
         cols = [rng.choice(on)]
         keys = uniq([tuple(k[on.index(c)] for c in cols) for k in keys])
+    elif partial and len(on) == 1:
+        # a table with NONE of the `on` columns (review t2, C20 item 6): a cross join - every row of it against every key
+        cols = []
+        keys = keys[:rng.choice([1, 2])]
     t = [(c, [k[i] for k in keys]) for i, c in enumerate(cols)]
     t.append((valname, [rng.choice(vals) for _ in keys]))
+    if not cols and not keys:
+        return [(valname, [rng.choice(vals)])]
     if rng.random() < 0.3:
         rng.shuffle(t)
     return t
@@ -160,7 +173,7 @@ def gen_case(rng, full=False):
                 elif r < 0.8:
                     renames.append((p, vcol))
                 elif r < 0.93 or full:
-                    renames.append((p, rng.choice([c for c, _ in t if c in on])))
+                    renames.append((p, rng.choice([c for c, _ in t if c in on] or [vcol])))
                 else:
                     renames.append((p, 'missing'))
     expiry = None
@@ -181,6 +194,10 @@ def gen_case(rng, full=False):
     elif r < 0.6:
         expiry = rng.choice(EXPIRIES)
         tag += '+expiry-scalar'
+    if expiry is not None and (expiry in SPELLED if not isinstance(expiry, list) else any(x in SPELLED for c, xs in expiry if c not in on for x in xs if isinstance(x, (str, int)))):
+        tag += '+expiry-spelled'
+    if any(isinstance(v, list) and not any(c in on for c, _ in v) for _, v in inputs):
+        tag += '+keyless-table'             # a table input without any key column: cross join
     if defaults:
         tag += '+defaults'
     if renames:
@@ -445,6 +462,8 @@ def laws(rng, tier, ctx):
                     vals.append(inputs[p])
             old, ok_data = lookup(inputs['data'], on, k) if 'data' in inputs else (None, False)
             ex = lookup(expiry, on, k)[0] if isinstance(expiry, dictable) else expiry
+            if isinstance(ex, (str, int)) and not isinstance(ex, bool):
+                ex = SPELLED[ex]                                             # a date string / yyyymmdd number
             if ex is not None and not isinstance(ex, datetime.datetime):
                 ex = datetime.datetime(ex.year, ex.month, ex.day)            # an expiry date given as datetime.date
             # "a previously computed value is SUPPLIED" is read per row: the data table holds this key
